@@ -48,6 +48,9 @@ StartSet   == Range(S.start)
 StartHosts == {S.host[s] : s \in StartSet}
 RobotsOn   == O.robots = 1
 Disallowed(u) == RobotsOn /\ S.robotskind[S.origin[u]] = "rules" /\ S.disallowed[u] = 1
+\* --no-parent: a URL outside the directory of the start URL is followed only as a page requisite (the rule is about
+\* the link's OWN URL, whatever page it was found in)
+ParentOK(c, inl) == ("noparent" \in DOMAIN O /\ O.noparent = 1 /\ S.outside[c] = 1) => inl = 1
 
 \* a link to c found at depth d-1 (so c has depth d), inline or not
 HostOK(c)  == O.spanhosts = 1 \/ S.host[c] \in StartHosts
@@ -56,6 +59,7 @@ ScopeOK(c, d, inl) ==
   /\ IF inl = 1 THEN O.pagereq = 1 ELSE O.recursive = 1
   /\ O.level = 0 \/ d <= O.level + (IF inl = 1 THEN 2 ELSE 0)
   /\ S.rejected[c] = 0
+  /\ ParentOK(c, inl)
 
 \* redirect hop of the visit of an item with depth d / inline flag: every rule is re-applied to the
 \* target; with strong redirects only the host rule is waived
@@ -63,6 +67,7 @@ HopOK(t, d, inl) ==
   /\ (HostOK(t) \/ O.strong = 1)
   /\ (d = 0 \/ (IF inl = 1 THEN O.pagereq = 1 ELSE O.recursive = 1))
   /\ S.rejected[t] = 0
+  /\ ParentOK(t, inl)
   /\ ~Disallowed(t)
 
 \* URLs requested by one visit of item u (u first): follows redirects while allowed, at most maxredir follow-ups
